@@ -2,7 +2,7 @@
 import os, re, signal
 from . import core
 
-SCHED_MODES = ['jitter', 'straggler', 'slowthread', 'holdblock']
+SCHED_MODES = ['jitter', 'straggler', 'slowthread', 'holdblock', 'gaps']
 
 
 def sched_env(rnd, allow_none=True, straggler_ms=None):
@@ -14,6 +14,8 @@ def sched_env(rnd, allow_none=True, straggler_ms=None):
     s = rnd.randrange(1, 1 << 30)
     if m == 'straggler':
         return {'LBZIP2_VERIF_SCHED': '%d:straggler:%d' % (s, straggler_ms or rnd.choice([5, 20, 60]))}
+    if m == 'gaps':
+        return {'LBZIP2_VERIF_SCHED': '%d:gaps:%d' % (s, rnd.choice([1, 2, 5]))}
     if m == 'holdblock':
         return {'LBZIP2_VERIF_SCHED': '%d:holdblock:%d' % (s, rnd.choice([30, 100, 200]))}
     return {'LBZIP2_VERIF_SCHED': '%d:%s' % (s, m)}
